@@ -27,6 +27,7 @@ var c13Segs = []string{"a", "a/b", "a/x", "a/b/y", "l", "l=r", "l=r/in", "l=r/in
 
 //vp:setup S_c08
 func H_C13_find_catalogue(s any) {
+	c13Budget()
 	m := s.(*meta.Module)
 	st := newMemStore()
 	c13Store(st)
@@ -52,10 +53,50 @@ func H_C13_find_catalogue(s any) {
 	vpCover("reached")
 }
 
+// Find from a selection at any depth, with any number of leading "../" steps (more than there are
+// ancestors included) followed by a catalogue path and one arbitrary byte
+//
+//vp:setup S_c08
+func H_C13_find_from_below(s any) {
+	c13Budget()
+	m := s.(*meta.Module)
+	st := newMemStore()
+	c13Store(st)
+	b := NewBrowser(m, st.node())
+	starts := []string{"a", "a/b", "l", "l=r", "l=r/in", "l=r/in=p,3"}
+	start := starts[vpChoose(len(starts))]
+	from, err := b.Root().Find(start)
+	vpAssert(err == nil && from != nil, "start selection found")
+	ups := vpChoose(6) // 0..5 "../" steps; the deepest start has 4 ancestors
+	path := ""
+	for i := 0; i < ups; i++ {
+		path += "../"
+	}
+	tails := []string{"", "a", "a/b", "l", "l=r", "top", "nosuch", "..", "a?depth=1", "l=r/in=p,3"}
+	label := path + tails[vpChoose(len(tails))]
+	path = label + vpString(1)
+	p := vpCatch(func() {
+		sel, ferr := from.Find(path)
+		if ferr == nil && sel != nil && !meta.IsLeaf(sel.Meta()) {
+			out := newMemStore()
+			out.quiet = true
+			if meta.IsList(sel.Meta()) && !sel.InsideList {
+				sel.UpsertInto(&memNode{s: out, l: out.root.ensureList(out, "x")})
+			} else {
+				sel.UpsertInto(&memNode{s: out, t: out.newTree()})
+			}
+		}
+	})
+	vpAssertK("C13-find-panics", true, !p, "Find("+label+"+byte) from "+start+" returns a selection or an error, never a panic")
+	vpAssert(st.writes() == 0 && st.root.leaves["top"] != nil, "stored data untouched")
+	vpCover("reached")
+}
+
 // arbitrary short byte strings as a whole path
 //
 //vp:setup S_c08
 func H_C13_find_bytes(s any) {
+	c13Budget()
 	m := s.(*meta.Module)
 	st := newMemStore()
 	c13Store(st)
@@ -69,6 +110,7 @@ func H_C13_find_bytes(s any) {
 
 // field-path expressions, row windows and xpath text: any short byte string
 func H_C13_pathexpr_bytes() {
+	c13Budget()
 	e := vpString(3)
 	p := vpCatch(func() {
 		pe, err := ParsePathExpression(e)
@@ -82,6 +124,7 @@ func H_C13_pathexpr_bytes() {
 }
 
 func H_C13_listrange_bytes() {
+	c13Budget()
 	e := vpString(3)
 	pre := []string{"", "l!", "l!1-", "l!-"}
 	x := pre[vpChoose(len(pre))] + e
@@ -91,6 +134,7 @@ func H_C13_listrange_bytes() {
 }
 
 func H_C13_xpath_bytes() {
+	c13Budget()
 	pre := []string{"", "a/", "a=", "a<", "a='", "a/b!="}
 	x := pre[vpChoose(len(pre))] + vpString(2)
 	p := vpCatch(func() { xpath.Parse(x) })
@@ -102,6 +146,7 @@ func H_C13_xpath_bytes() {
 //
 //vp:setup S_c16
 func H_C13_setvalue_anykind(s any) {
+	c13Budget()
 	m := s.(*meta.Module)
 	leaves := []string{"i8", "u8", "i32", "u64", "d", "s", "b", "e"}
 	leaf := leaves[vpChoose(len(leaves))]
@@ -146,4 +191,12 @@ func H_C13_setvalue_anykind(s any) {
 	keep := st.root.kids["c"].leaves["s"]
 	vpAssert(leaf == "s" || (keep != nil && keep.String() == "before"), "other data untouched")
 	vpCover("reached")
+}
+
+// a hang is a violation of this property, not an inconclusive unwinding bound: loops are limited only by the
+// step budget (well above the longest request in these harnesses) and the frame-depth budget
+func c13Budget() {
+	vpUnwind(1 << 30)
+	vpSteps(3000000)
+	vpDepth(1500)
 }
